@@ -176,7 +176,7 @@ func (d *DDB) GetItem(table string, key Item, consistent bool, proj string, name
 }
 
 // PutItem implements PutItem with the attribute_not_exists condition.
-func (d *DDB) PutItem(table string, item Item, cond string) error {
+func (d *DDB) PutItem(table string, item Item, cond string, names map[string]string, values map[string]Val) error {
 	d.S.Point(simrt.KSeam, "ddb.putitem")
 	d.Stats["PutItem"]++
 	f := d.fault("PutItem")
@@ -191,17 +191,20 @@ func (d *DDB) PutItem(table string, item Item, cond string) error {
 		return fmt.Errorf("ValidationException: item lacks key attributes Id (S) / Created (N)")
 	}
 	id, c := item["Id"].S, item["Created"].S
-	_, exists := tbl[id][c]
-	switch strings.ReplaceAll(cond, " ", "") {
-	case "":
-		// unconditional put overwrites
-	case "attribute_not_exists(Id)", "attribute_not_exists(Created)":
-		if exists {
+	if strings.TrimSpace(cond) != "" {
+		// the condition is evaluated against the item currently stored under the same primary key
+		var stored Item
+		if it, exists := tbl[id][c]; exists {
+			stored = it
+		}
+		okc, err := EvalCondition(cond, stored, names, values)
+		if err != nil {
+			return HarnessError{"condition expression " + cond + ": " + err.Error()}
+		}
+		if !okc {
 			d.S.Point(simrt.KSeam, "ddb.putitem.ret")
 			return ErrConditional
 		}
-	default:
-		return HarnessError{"condition expression " + cond}
 	}
 	if tbl[id] == nil {
 		tbl[id] = map[string]Item{}
